@@ -43,6 +43,13 @@ pub struct Broker {
     pub fail_pct: u64,
     /// Percent of successful acks in a long form (reason byte, property block).
     pub fancy_pct: u64,
+    /// Percent of PUBACK / PUBREC carrying the success-class reason 0x10.
+    pub rc10_pct: u64,
+    /// A resuming broker always retransmits unacknowledged inbound publishes (else 70 %).
+    pub always_retransmit: bool,
+    /// Server bytes seen on the current connection and not yet split into packets.
+    srv_buf: Vec<u8>,
+    srv_desync: bool,
 }
 
 const FAIL_CODES: [u8; 7] = [0x80, 0x83, 0x87, 0x90, 0x91, 0x97, 0x99];
@@ -122,6 +129,100 @@ impl Broker {
             last: None,
             fail_pct: 0,
             fancy_pct: 0,
+            rc10_pct: 0,
+            always_retransmit: false,
+            srv_buf: Vec::new(),
+            srv_desync: false,
+        }
+    }
+
+    fn drop_owed(&mut self, kind: &str, pid: u16) {
+        if let Some(i) = self.owed.iter().position(|o| o.kind == kind && o.pid == pid) {
+            self.owed.remove(i);
+        }
+    }
+
+    /// Static replay: server bytes that a recorded program put on the wire. Learn which
+    /// acknowledgements the client has already been given and which inbound ids are open.
+    pub fn on_server_bytes(&mut self, bytes: &[u8]) {
+        self.srv_buf.extend_from_slice(bytes);
+        while !self.srv_desync && !self.srv_buf.is_empty() {
+            let (rem, n) = match wire::read_varint(&self.srv_buf[1..]) {
+                Ok(Some(v)) => v,
+                Ok(None) => return,
+                Err(()) => {
+                    self.srv_desync = true;
+                    return;
+                }
+            };
+            let total = 1 + n + rem as usize;
+            if self.srv_buf.len() < total {
+                return;
+            }
+            let packet: Vec<u8> = self.srv_buf.drain(..total).collect();
+            let body = &packet[1 + n..];
+            let first = packet[0];
+            let be = |at: usize| -> u16 {
+                u16::from_be_bytes([
+                    body.get(at).copied().unwrap_or(0),
+                    body.get(at + 1).copied().unwrap_or(0),
+                ])
+            };
+            match first >> 4 {
+                2 => {
+                    let (sp, rc) = (body.first().copied().unwrap_or(0) & 1 == 1, body.get(1).copied().unwrap_or(0));
+                    if rc < 0x80 {
+                        if !sp {
+                            self.inflight.clear();
+                            self.in1.clear();
+                            self.in2.clear();
+                        }
+                        self.has_session = true;
+                    }
+                }
+                3 => {
+                    let qos = first >> 1 & 3;
+                    let id = be(2 + be(0) as usize);
+                    match qos {
+                        1 if !self.in1.iter().any(|(i, _)| *i == id) => self.in1.push((id, packet.clone())),
+                        2 if !self.in2.iter().any(|e| e.id == id) => self.in2.push(In2 {
+                            id,
+                            rec_seen: false,
+                            bytes: packet.clone(),
+                        }),
+                        _ => {}
+                    }
+                    if qos > 0 && id >= self.next_pid {
+                        self.next_pid = id.wrapping_add(1).max(1);
+                    }
+                }
+                4 => {
+                    self.inflight.remove(&be(0));
+                    self.drop_owed("puback", be(0));
+                }
+                5 => {
+                    if body.get(2).copied().unwrap_or(0) >= 0x80 {
+                        self.inflight.remove(&be(0));
+                    }
+                    self.drop_owed("pubrec", be(0));
+                }
+                6 => self.drop_owed("pubrel", be(0)),
+                7 => {
+                    self.inflight.remove(&be(0));
+                    self.drop_owed("pubcomp", be(0));
+                }
+                9 => {
+                    self.inflight.remove(&be(0));
+                    self.drop_owed("suback", be(0));
+                }
+                11 => {
+                    self.inflight.remove(&be(0));
+                    self.drop_owed("unsuback", be(0));
+                }
+                13 => self.drop_owed("pingresp", 0),
+                14 => {}
+                _ => self.srv_desync = true,
+            }
         }
     }
 
@@ -129,6 +230,7 @@ impl Broker {
     pub fn make_benign(&mut self) {
         self.fail_pct = 0;
         self.fancy_pct = 0;
+        self.rc10_pct = 0;
     }
 
     fn fits(&self, bytes: &[u8]) -> bool {
@@ -144,6 +246,8 @@ impl Broker {
             } else {
                 wire::ack(first, pid, Some(rc), None)
             }
+        } else if may_fail && rng.pct(self.rc10_pct) {
+            wire::ack(first, pid, Some(0x10), None)
         } else if rng.pct(self.fancy_pct) {
             match rng.below(4) {
                 0 => wire::ack(first, pid, Some(0), None),
@@ -171,6 +275,8 @@ impl Broker {
                 self.disconnect_seen = false;
                 // Responses owed on the previous connection are gone with it.
                 self.owed.clear();
+                self.srv_buf.clear();
+                self.srv_desync = false;
             }
             3 if p.qos == 1 => {
                 self.inflight.insert(pid);
@@ -272,7 +378,7 @@ impl Broker {
                         pid: e.id,
                         bytes: wire::ack(0x62, e.id, None, None),
                     });
-                } else if rng.pct(70) {
+                } else if self.always_retransmit || rng.pct(70) {
                     let mut bytes = e.bytes.clone();
                     bytes[0] |= 8;
                     after.push(Owed {
